@@ -209,6 +209,7 @@ def prop_C07(run):
     rules_idx.exact_count_definition(run)
     rules_idx.brace_scan_by_tokens(run)
     rules_idx.lookahead_skips_comments(run)
+    rules_idx.precedence_per_operand(run)
     run.rules_run += ["TAB-idx (case normalisation, token classes, whitespace skipping)", "MATCH shape of match_with_rule / match_instr selection"]
 
 
